@@ -65,9 +65,11 @@ class OutstandingRequest {
    */
  public:
   OutstandingRequest(int id,
+                     RpcChannel *channel,
                      RpcSession *session,
                      google::protobuf::Message *response)
       : id(id),
+        channel(channel),
         controller(new RpcController(session)),
         response(response),
         cancelled(false) {
@@ -82,6 +84,9 @@ class OutstandingRequest {
   }
 
   int id;
+  // The channel to notify when the service completes the request. NULL once
+  // the channel has been deleted; the request is then just freed.
+  RpcChannel *channel;
   RpcController *controller;
   google::protobuf::Message *response;
   // true if another request with the same id has replaced this one. The
@@ -89,6 +94,20 @@ class OutstandingRequest {
   // the service completes it.
   bool cancelled;
 };
+
+
+/*
+ * Run by the service when it has finished with a request. The service may
+ * hold on to a request for longer than the client stays connected, so this
+ * can't be bound to the channel itself.
+ */
+static void RequestFinished(OutstandingRequest *request) {
+  if (request->channel) {
+    request->channel->RequestComplete(request);
+  } else {
+    delete request;
+  }
+}
 
 
 class OutstandingResponse {
@@ -143,6 +162,13 @@ RpcChannel::RpcChannel(
 }
 
 RpcChannel::~RpcChannel() {
+  // The service may still be working on some requests and will run their
+  // completion callbacks later; they must not call back into this object.
+  HASH_NAMESPACE::HASH_MAP_CLASS<int, OutstandingRequest*>::iterator iter =
+      m_requests.begin();
+  for (; iter != m_requests.end(); ++iter) {
+    iter->second->channel = NULL;
+  }
   free(m_buffer);
 }
 
@@ -498,7 +524,7 @@ void RpcChannel::HandleRequest(RpcMessage *msg) {
   }
 
   OutstandingRequest *request = new OutstandingRequest(
-      msg->id(), m_session.get(), response_pb);
+      msg->id(), this, m_session.get(), response_pb);
 
   if (m_requests.find(msg->id()) != m_requests.end()) {
     OLA_WARN << "dup sequence number for request " << msg->id();
@@ -509,11 +535,13 @@ void RpcChannel::HandleRequest(RpcMessage *msg) {
     m_requests.erase(msg->id());
     old_request->cancelled = true;
     SendRequestFailed(old_request);
+    // it's only reachable through the service's callback from here on
+    old_request->channel = NULL;
   }
 
   m_requests[msg->id()] = request;
   SingleUseCallback0<void> *callback = NewSingleCallback(
-      this, &RpcChannel::RequestComplete, request);
+      &RequestFinished, request);
   m_service->CallMethod(method, request->controller, request_pb, response_pb,
                         callback);
   delete request_pb;
